@@ -1,0 +1,7 @@
+//go:build !verif
+
+package types
+
+import "time"
+
+func verifNow() time.Time { return time.Now() }
